@@ -186,7 +186,7 @@ THEOREMS = ["T_MeshRoundTrip: the u-row ordered rows of a smesh / vmesh file det
 
 
 def run(ctx):
-    res = core.run_tlc("MC_C14", "MC_C14_%s.cfg" % ctx.tier, timeout=1200)
+    res = core.run_model(ctx, "MC_C14", 1200, thorough_seeds=(2, 3, 5))
     core.tlc_must_pass(res, "MC_C14")
     ctx.add_tlc(res, "shapes with pairwise different sizes and containers x formats")
     ctx.theorems = THEOREMS
